@@ -299,7 +299,12 @@ class AffinePaths:
         self.f = f
         self.cur = cur_param
         self.rec_fn = rec_fn
+        self.post = None        # state -> affine term (>= 0) that holds when the recursive call found nothing
+        self.some_facts = None  # name bound by `if let Some(name) = ..` -> list of terms >= 0 (data-structure invariant)
         self.results = []      # (kind, data, state)
+        self.entry_facts = []  # affine terms known to be >= 0 on entry
+        self.subs = []         # (l - r, facts, node, trace) for every subtraction met
+        self.reccalls = []     # (cursor at the recursive call, facts, trace)
 
     def sym(self, n):
         from ..ir import path_of
@@ -330,6 +335,8 @@ class AffinePaths:
             a, b = self.ev(n["l"], st), self.ev(n["r"], st)
             if a is None or b is None:
                 return None
+            if n["op"] == "Sub" and "subs" in st:
+                st["subs"].append((_t_add(a, b, -1), list(st["facts"]), n, list(st["trace"])))
             return _t_add(a, b, 1 if n["op"] == "Add" else -1)
         if k == "Call" and (callee(n) or "").endswith("::len") and n.get("args"):
             s = self.sym(n["args"][0])
@@ -340,13 +347,15 @@ class AffinePaths:
         return None
 
     def run(self):
-        st = {"vars": {}, "cur": {"cur0": 1}, "rec": 0, "trace": []}
+        st = {"vars": {}, "cur": {"cur0": 1}, "rec": 0, "trace": [], "facts": list(self.entry_facts), "subs": self.subs,
+              "reccalls": self.reccalls}
         for end in self.block(self.f["body"], st):
             self.results.append(("fallthrough", None, end))
         return self.results
 
     def fork(self, st):
-        return {"vars": dict(st["vars"]), "cur": dict(st["cur"]), "rec": st["rec"], "trace": list(st["trace"])}
+        return {"vars": dict(st["vars"]), "cur": dict(st["cur"]), "rec": st["rec"], "trace": list(st["trace"]),
+                "facts": list(st.get("facts", [])), "subs": st.get("subs"), "reccalls": st.get("reccalls")}
 
     def block(self, n, st):
         """yields the states that leave n normally"""
@@ -371,6 +380,8 @@ class AffinePaths:
         """apply the side effects of evaluating expression n (recursive call advancing the cursor)"""
         for x in walk(n):
             if x.get("k") == "Call" and ((x.get("res") or {}).get("fn") or x.get("fn")) == self.rec_fn:
+                if st.get("reccalls") is not None:
+                    st["reccalls"].append((dict(st["cur"]), list(st.get("facts", [])), list(st["trace"])))
                 st["rec"] += 1
                 st["cur"] = _t_add(st["cur"], {f"REC{st['rec']}": 1})
                 st["trace"].append("recursive call")
@@ -421,6 +432,16 @@ class AffinePaths:
             self.effects(c, a)
             self.effects(c, b)
             pc = peel_block(c)
+            if pc.get("k") == "Bin" and pc["op"] in ("Le", "Lt", "Ge", "Gt"):
+                lt, rt = self.ev(pc["l"], st), self.ev(pc["r"], st)
+                if lt is not None and rt is not None:
+                    d = _t_add(rt, lt, -1)            # r - l
+                    op = pc["op"]
+                    # then-branch fact / else-branch fact, each as (term >= 0)
+                    tf = {"Le": d, "Lt": _t_add(d, {1: 1}, -1), "Ge": _t_add(lt, rt, -1), "Gt": _t_add(_t_add(lt, rt, -1), {1: 1}, -1)}[op]
+                    ef = {"Le": _t_add(_t_add(lt, rt, -1), {1: 1}, -1), "Lt": _t_add(lt, rt, -1), "Ge": _t_add(d, {1: 1}, -1), "Gt": d}[op]
+                    a["facts"].append(tf)
+                    b["facts"].append(ef)
             if pc.get("k") == "Let":
                 # binding branch: variables of the pattern become symbols named after the scrutinee
                 from .taint_rules import pat_binds
@@ -429,6 +450,13 @@ class AffinePaths:
                     a["vars"][bnd["v"]] = {bnd["v"].split("#")[0]: 1}
                 a["trace"].append(f"{scr} is {pc['pat'].get('variant', 'matched')}")
                 b["trace"].append(f"{scr} is not {pc['pat'].get('variant', 'matched')}")
+                is_rec = any(y.get("k") == "Call" and ((y.get("res") or {}).get("fn") or y.get("fn")) == self.rec_fn for y in walk(pc["e"]))
+                if is_rec and self.post is not None:
+                    b["facts"].append(self.post(b))
+                    b["facts"].append({f"REC{b['rec']}": 1})
+                if not is_rec and pc["pat"].get("variant") == "Some" and self.some_facts is not None:
+                    for bnd in pat_binds(pc["pat"]):
+                        a["facts"].extend(self.some_facts(bnd["v"].split("#")[0]))
             yield from self.block(s["t"], a)
             if s.get("f") is not None:
                 yield from self.block(s["f"], b)
@@ -474,6 +502,11 @@ def s3(facts, tier):
     cur = next((v for v in names if v.split("#")[0] == "cur"), names[-1] if names else None)
     idx = next((v.split("#")[0] for v in names if v.split("#")[0] == "index"), "index")
     ap = AffinePaths(f, cur, f["id"])
+    # inductive invariant of the flat cursor:  INV(entry): index >= cursor ;  INV(exit with None): index >= cursor
+    ap.entry_facts = [_t_add({idx: 1}, {"cur0": 1}, -1)]
+    ap.post = lambda st: _t_add({idx: 1}, st["cur"], -1)
+    # data-structure invariant of a frame (established by dive: `selected = Some(i)` is set right after keyvals[i] was pushed)
+    ap.some_facts = lambda name: [_t_add({"len(frame.keyvals)": 1}, {name: 1, 1: 1}, -1), {name: 1}]
     res = ap.run()
     na = nb = 0
     for kind, e, st in res:
@@ -514,6 +547,60 @@ def s3(facts, tier):
                      f"path [{'; '.join(st['trace'])}]: returns keyvals[{_t_show(it) if it is not None else '?'}]" if ok else
                      f"total_index_impl, path [{'; '.join(st['trace'])}]: returns keyvals[{_t_show(it) if it is not None else '?'}], "
                      f"expected keyvals[{_t_show(want)}]")
+    # (c) no subtraction underflows, by induction on the invariant index >= cursor
+    groups = {}
+    for term, facts, node, trace in ap.subs:
+        groups.setdefault(id(node), []).append((term, facts, node, trace))
+    k_ = 0
+    for gid, insts in sorted(groups.items(), key=lambda kv: (kv[1][0][2].get("ln") or 0, _t_show(kv[1][0][0]))):
+        k_ += 1
+        bad = [(t, fa, nd, tr) for t, fa, nd, tr in insts if not _entails(fa, t)]
+        node = insts[0][2]
+        if not bad:
+            yield ob(["C17"], "S3", f"no-underflow#{k_}", "pass", where(f, node),
+                     f"`{_t_show(insts[0][0])} >= 0` follows from the path conditions and the invariant index >= cursor on {len(insts)} path(s)")
+            continue
+        term, facts, _, trace = bad[0]
+        opaque = any(str(sy).startswith("?") for sy in term)
+        yield ob(["C17"], "S3", f"no-underflow#{k_}", "undecided" if opaque else "violation", where(f, node),
+                 f"total_index_impl, path [{'; '.join(trace)}]: the subtraction computing `{_t_show(term)}` can underflow - `{_t_show(term)} >= 0` does "
+                 f"not follow from the conditions on this path ({', '.join(_t_show(x) + ' >= 0' for x in facts[:5])}): total_index panics (debug) or "
+                 f"indexes out of range for some index below total_len")
+    ap.reccalls = list({(tuple(sorted((str(k), v) for k, v in c.items())), tuple(tr)): (c, fa, tr) for c, fa, tr in ap.reccalls}.values())
+    for i_, (curt, facts, trace) in enumerate(ap.reccalls, 1):
+        term = _t_add({idx: 1}, curt, -1)
+        ok = _entails(facts, term)
+        yield ob(["C17"], "S3", f"recursive-call#{i_}:precondition", "pass" if ok else "violation", where(f),
+                 "the nested frame is entered with index >= cursor" if ok else
+                 f"total_index_impl, path [{'; '.join(trace)}]: the nested frame is entered although `{_t_show(term)} >= 0` is not established: "
+                 f"its `index - cursor` underflows")
+    n_post = 0
+    for kind, e, st in res:
+        e0 = peel_block(peel(e)) if e is not None else {}
+        if kind == "return" and e0.get("k") == "Adt" and e0.get("variant") == "None":
+            n_post += 1
+            term = _t_add({idx: 1}, st["cur"], -1)
+            ok = _entails(st.get("facts", []), term)
+            yield ob(["C17"], "S3", f"none-exit#{n_post}:postcondition", "pass" if ok else "violation", where(f),
+                     "a frame that yields nothing leaves index >= cursor" if ok else
+                     f"total_index_impl, path [{'; '.join(st['trace'])}]: returns None with `{_t_show(term)} >= 0` not established: the enclosing "
+                     f"frame's `index - cursor` underflows")
+
+
+def _entails(facts, target):
+    """is `target >= 0` a consequence of the facts (each `>= 0`)? subset-sum search: target - sum(S) is a constant >= 0"""
+    import itertools
+    fs = [f_ for f_ in facts if f_]
+    # every symbol is an unsigned quantity
+    fs += [{sy: 1} for sy, c in target.items() if sy != 1 and c > 0 and {sy: 1} not in fs]
+    for r in range(0, min(5, len(fs)) + 1):
+        for S in itertools.combinations(fs, r):
+            t = dict(target)
+            for f_ in S:
+                t = _t_add(t, f_, -1)
+            if all(k == 1 for k in t) and t.get(1, 0) >= 0:
+                return True
+    return False
 
 
 def _syms(st):
